@@ -16,7 +16,7 @@ ASSUMPTIONS = ['a time TIMEX is compared by the time it denotes (T15 = T15:00 = 
 
 TX_TIME = re.compile(r'^T(\d{2})(?::(\d{2})(?::(\d{2}))?)?$')
 TX_DT = re.compile(r'^(\d{4}-\d{2}-\d{2})T(\d{2})(?::(\d{2})(?::(\d{2}))?)?$')
-CARRIERS = ['{}', '{}', 'let us meet at {}', 'the call starts {} for everyone']
+CARRIERS = ['{}', '{}', 'let us meet at {}', 'the call starts {} for everyone', '{}.', '{} is fine , table for 4.']
 AT_CARRIERS = ['at {}', 'let us meet at {}']
 
 
@@ -143,7 +143,7 @@ REF0 = '2016-11-07T08:30:00'
 def grid():
     for h in range(24):
         for m in range(60):
-            yield {'h': h, 'm': m, 'marker': 'none', 'form': 'HH:MM', 'carrier': CARRIERS[(h + m) % 4], 'ref': REF0}
+            yield {'h': h, 'm': m, 'marker': 'none', 'form': 'HH:MM', 'carrier': CARRIERS[(h + m) % 6], 'ref': REF0}
             if h < 10 and m % 7 == 0:
                 yield {'h': h, 'm': m, 'marker': 'none', 'form': 'H:MM', 'carrier': '{}', 'ref': REF0}
 
@@ -152,9 +152,9 @@ def twelve_hour():
     for h in range(1, 13):
         for marker in ('am', 'pm'):
             for style in (' am', 'am', ' a.m.', ' AM'):
-                yield {'h': h, 'marker': marker, 'form': 'H', 'mstyle': style, 'carrier': CARRIERS[h % 4], 'ref': REF0}
+                yield {'h': h, 'marker': marker, 'form': 'H', 'mstyle': style, 'carrier': CARRIERS[h % 6], 'ref': REF0}
             for m in (0, 1, 5, 15, 30, 59):
-                yield {'h': h, 'm': m, 'marker': marker, 'form': 'H:MM', 'mstyle': ' am', 'carrier': CARRIERS[(h + m) % 4], 'ref': REF0}
+                yield {'h': h, 'm': m, 'marker': marker, 'form': 'H:MM', 'mstyle': ' am', 'carrier': CARRIERS[(h + m) % 6], 'ref': REF0}
                 yield {'h': h, 'm': m, 'marker': marker, 'form': 'H:MM', 'mstyle': 'am', 'carrier': '{}', 'ref': REF0}
                 for s in (0, 5, 59):
                     yield {'h': h, 'm': m, 's': s, 'marker': marker, 'form': 'H:MM:SS', 'mstyle': ' am', 'carrier': '{}', 'ref': REF0}
@@ -190,7 +190,7 @@ def composed_cases():
         t.update({'date': d, 'joiner': j, 'ref': r, 'carrier': c})
         return t
     return st.builds(mk, st.one_of(hm24, hm12, h12, hms), dates, st.sampled_from(['at', 'at', 'blank']), G.refs(),
-                     st.sampled_from(['{}', '{}', 'the call is {} for everyone']))
+                     st.sampled_from(['{}', '{}', 'the call is {} for everyone', '{}.']))
 
 
 def parts(tier, seed):
